@@ -217,11 +217,182 @@ def interpreter_exit_cases(ctx):
         shutil.rmtree(tmp, ignore_errors=True)
 
 
+HISTORY_SCRIPT = r"""
+import os, sys, json, time, gc
+sys.path.insert(0, %(repo)r)
+from generatorpipeline import pipeline
+
+@pipeline(%(nworkers)d, extracache=%(extracache)d)
+def f(x):
+    return x * x
+
+@pipeline(%(nworkers)d, extracache=%(extracache)d)
+def slow(x):
+    if x > 0:
+        time.sleep(60)
+    return x
+
+def kids():
+    me = os.getpid(); res = []
+    for d in os.listdir('/proc'):
+        if d.isdigit():
+            try:
+                s = open('/proc/%%s/stat' %% d).read()
+            except OSError:
+                continue
+            fields = s[s.rfind(')') + 2:].split()
+            if int(fields[1]) == me:
+                res.append((int(d), fields[0]))
+    return res
+
+def nfd():
+    return len(os.listdir('/proc/self/fd'))
+
+def one_stream(way, n=7):
+    st = f(iter(range(n)))
+    if way == 'exhaust':
+        assert list(st) == [i * i for i in range(n)]
+    elif way == 'close':
+        next(st); st.close()
+    else:
+        next(st); next(st)
+    del st
+    gc.collect()
+
+def settle():
+    t0 = time.time()
+    while kids() and time.time() - t0 < 5:
+        time.sleep(0.02)
+    gc.collect()
+
+def forked_consumer(way):
+    # the stage was made in this process (above); a forked child of the program runs a stream of it and ends it early while
+    # its workers are busy
+    r, w = os.pipe()
+    pid = os.fork()
+    if pid == 0:
+        rep = {}
+        try:
+            os.close(r)
+            st = slow(iter(range(50)))
+            rep['first'] = next(st)
+            time.sleep(0.3)
+            rep['workers'] = len(kids())
+            if way == 'close':
+                st.close()
+            elif way == 'throw':
+                try:
+                    st.throw(KeyError('stop'))
+                except KeyError:
+                    pass
+            else:
+                del st
+                gc.collect()
+            t0 = time.time()
+            left = kids()
+            while left and time.time() - t0 < 4:
+                time.sleep(0.02)
+                left = kids()
+            rep['left'] = left
+            rep['after_s'] = round(time.time() - t0, 2)
+        except BaseException as e:
+            rep['error'] = repr(e)
+        finally:
+            os.write(w, json.dumps(rep).encode())
+            os._exit(0)
+    os.close(w)
+    data = b''
+    while True:
+        b = os.read(r, 65536)
+        if not b:
+            break
+        data += b
+    os.close(r)
+    os.waitpid(pid, 0)
+    return json.loads(data.decode() or '{}')
+
+def main():
+    ways = %(ways)r
+    one_stream('exhaust'); one_stream('close'); settle()
+    base = nfd()
+    for wy in ways:
+        one_stream(wy)
+    settle()
+    after = nfd()
+    rep = {'fd_base': base, 'fd_after': after, 'streams': len(ways), 'kids_left': kids(),
+           'forked': forked_consumer(%(forkway)r)}
+    print(json.dumps(rep), flush=True)
+
+main()
+"""
+
+
+def process_history_cases(ctx):
+    """one process runs many streams one after another (and hands a stage to a forked child): nothing of an ended stream stays behind —
+    no worker, no zombie, no open descriptor — so the process can go on to run further pipelines for as long as it likes"""
+    rng = ctx.rng
+    tmp = tempfile.mkdtemp(prefix='verif_c04h_')
+    try:
+        for rep_i in range(1 if ctx.quick else 3):
+            ways = [rng.choice(['exhaust', 'close', 'drop']) for _ in range(rng.choice([10, 16]))]
+            params = dict(repo=core.REPO, nworkers=rng.choice([1, 2, 3]), extracache=rng.choice([0, 1]), ways=ways,
+                          forkway=rng.choice(['close', 'throw', 'drop']))
+            case = dict(process_history=True, nworkers=params['nworkers'], extracache=params['extracache'], ways=''.join(w[0] for w in ways),
+                        forked_consumer_ends_by=params['forkway'])
+            ctx.case(('history', params['nworkers'], params['extracache'], tuple(ways), params['forkway']), True, sample=case)
+            ctx.count('process_histories')
+            path = os.path.join(tmp, 'hist_%d.py' % rep_i)
+            open(path, 'w').write(HISTORY_SCRIPT % params)
+            out = None
+            for attempt in range(3):
+                p = subprocess.Popen([core.PY, path], stdout=subprocess.PIPE, stderr=subprocess.PIPE, text=True,
+                                     env=dict(os.environ, PYTHONDONTWRITEBYTECODE='1'), start_new_session=True)
+                try:
+                    out, err = p.communicate(timeout=60)
+                    break
+                except subprocess.TimeoutExpired:
+                    try:
+                        os.killpg(p.pid, 9)
+                    except OSError:
+                        pass
+                    p.communicate()
+                    ctx.count('scenarios_rerun_after_a_timeout')
+            if out is None:
+                ctx.fail('process-history-hangs', 'a process running %d streams one after another did not finish within 60 s, three attempts' % len(ways), case)
+                continue
+            try:
+                info = json.loads(out.strip().splitlines()[0])
+            except Exception:  # noqa
+                ctx.fail('process-history-fails', 'a process running %d proper streams one after another failed: %s' % (len(ways), err[-400:]), case)
+                continue
+            finally:
+                try:
+                    os.killpg(p.pid, 9)
+                except OSError:
+                    pass
+            if info['kids_left']:
+                ctx.fail('worker-outlives-stream', 'after %d ended streams the process still has children %s' % (len(ways), info['kids_left']), case)
+            if info['fd_after'] > info['fd_base']:
+                ctx.fail('descriptors-left-open', '%d streams, each ended properly, left %d descriptors open (%d before, %d after): the process cannot go on for ever'
+                         % (len(ways), info['fd_after'] - info['fd_base'], info['fd_base'], info['fd_after']), case)
+            fk = info['forked']
+            if 'error' in fk or 'left' not in fk:
+                ctx.fail('forked-consumer-fails', 'a forked child running a stream of an inherited stage: %r' % (fk,), case)
+            elif fk.get('workers', 0) < 1:
+                raise core.InfraError('forked consumer saw no workers: %r' % (fk,))
+            elif fk['left']:
+                ctx.fail('worker-outlives-stream', 'a forked child of the program ran a stream of a stage made in its parent and ended it (%s) after one '
+                         'output with busy workers: %d s later its workers %s are still there' % (params['forkway'], fk['after_s'], fk['left']), case)
+    finally:
+        shutil.rmtree(tmp, ignore_errors=True)
+
+
 def check(ctx):
     for c, r, m in c01.execute(gen_cases(ctx)):
         with ctx.guard(c):
             judge(ctx, c, r, m)
     interpreter_exit_cases(ctx)
+    process_history_cases(ctx)
     from harness.props import multistream
     multistream.run(ctx, ctx.scale(40, 300), {'process'}, 'multi-C04', parallel=True, failures=True)
 
@@ -234,6 +405,9 @@ def replay(ctx, data):
         return
     if 'interpreter_exit' in case:
         interpreter_exit_cases(ctx)
+        return
+    if case.get('process_history'):
+        process_history_cases(ctx)
         return
     for c, r, m in c01.execute([case], workers=1):
         with ctx.guard(c):
